@@ -81,7 +81,7 @@ def run(ctx, ck) -> None:
     if binding is None:
         raise AnalysisError(f'anchor vanished: {VAR}')
     ok_ctor = (
-        isinstance(binding, ast.Assign)
+        isinstance(binding, (ast.Assign, ast.AnnAssign))
         and isinstance(binding.value, ast.Call)
         and world.qualify(cfg, binding.value.func) == 'contextvars.ContextVar'
     )
